@@ -275,6 +275,23 @@ with sldom (q : slst) : Prop :=
   | TRuns _ _ _ _ p => sdom (pk_in p)
   end.
 
+(* no source panics, whether or not it looks at the context *)
+Lemma script_next_no_pan evs o evs' : script_next evs = (o, evs') -> o <> Pan.
+Proof.
+  destruct evs as [|[y|e|e] t]; simpl; intros E; injection E as ? ?; subst; discriminate.
+Qed.
+Lemma ssrc_next_no_pan live src o src' : ssrc_next live src = (o, src') -> o <> Pan.
+Proof.
+  unfold ssrc_next. intros E. destruct src as [i|evs|evs].
+  - destruct (negb live); [injection E as ? ?; subst; discriminate|].
+    destruct (isrc_next i) as [[y|] i']; injection E as ? ?; subst; discriminate.
+  - destruct (negb live); [injection E as ? ?; subst; discriminate|].
+    destruct (script_next evs) as [o1 evs1] eqn:E1. injection E as ? ?; subst.
+    exact (script_next_no_pan _ _ _ E1).
+  - destruct (script_next evs) as [o1 evs1] eqn:E1. injection E as ? ?; subst.
+    exact (script_next_no_pan _ _ _ E1).
+Qed.
+
 (* the master theorem: on [sdom] states no call panics, whatever the sources and callbacks do
    and whether or not the context is live; [sdom] is preserved *)
 Theorem snext_no_panic live : forall f,
@@ -287,10 +304,7 @@ Proof.
     + destruct s as [id src|p|r first prev p|keep fl calls p|x p|rest curr|rem|g fl calls p
                     |g fl calls item has done p|b q]; cbn [snext] in Hc; cbn [sdom sldom] in Hd.
       * destruct (ssrc_next live src) as [o1 src'] eqn:E. inv_ret Hc. split; [exact I|].
-        unfold ssrc_next in E. destruct (negb live); [injection E as ? ?; subst; discriminate|].
-        destruct src as [i|evs].
-        -- destruct (isrc_next i) as [[y|] i']; injection E as ? ?; subst; discriminate.
-        -- destruct evs as [|[y|e|e] t]; injection E as ? ?; subst; discriminate.
+        exact (ssrc_next_no_pan _ _ _ _ E).
       * destruct (ipk_next (snext f live) p) as [[o1 p1] ev1] eqn:E. inv_ret Hc.
         exact (ipk_next_np _ _ IHz _ _ _ _ Hd E).
       * destruct (icompact (snext f live) (S f) r first prev p)
